@@ -1,0 +1,210 @@
+//go:build verif
+
+package server
+
+// Gate and crash points of the AOF rewrite for the verification harness
+// (/verif, property C09).
+//
+// Compiled only with `-tags verif`. Inert unless one of two environment
+// variables is set when the process starts:
+//
+// VERIF_CRASH=<name> makes the process die (exit status 137, nothing flushed,
+// no deferred function run) when the rewrite reaches the crash point <name>
+// of the final swap. The points, in program order:
+//
+//	final-locked before-append after-append after-sync after-close-live
+//	after-close-new after-rename-bak after-rename-live after-reopen
+//	after-remove-bak
+//
+// VERIF_SHRINK_SOCK=<unix socket path> makes the server listen there for a
+// line protocol (one request line, one reply line) that parks the rewrite
+// goroutine at its schedule points, always outside the server lock, so that a
+// controller can interleave writers deterministically:
+//
+//	arm [kind,kind...]  -> ok       park at these kinds of points (default all)
+//	disarm              -> ok       stop parking; releases the rewrite if parked
+//	wait <ms>           -> <event> | timeout     next arrival
+//	step <ms>           -> <event> | timeout | err not parked   release, then wait
+//	go                  -> ok | err not parked   release without waiting
+//	crash <name>        -> ok       set the crash point (as VERIF_CRASH)
+//
+// <event> = "<kind> <hex arg1|-> <hex arg2|->". Kinds, in program order:
+//
+//	start                      shrinking flag set, shrink log reset
+//	keys <nextkey>             before a batch of collection names is read
+//	ids <key> <nextid>         before a batch of objects of <key> is read
+//	hooknames                  before the hook names are read
+//	hook <name>                before one hook is written
+//	final                      before the final locked phase
+//	done                       the rewrite has ended (never parks)
+
+import (
+	"bufio"
+	"encoding/hex"
+	"fmt"
+	"net"
+	"os"
+	"strconv"
+	"strings"
+	"sync"
+	"sync/atomic"
+	"time"
+)
+
+var verifShrink struct {
+	on      atomic.Bool
+	armed   atomic.Bool
+	parked  atomic.Bool
+	mu      sync.Mutex
+	kinds   map[string]bool // nil = all
+	crash   string
+	arrived chan string
+	release chan struct{}
+}
+
+func init() {
+	verifShrink.crash = os.Getenv("VERIF_CRASH")
+	path := os.Getenv("VERIF_SHRINK_SOCK")
+	if path == "" {
+		return
+	}
+	verifShrink.arrived = make(chan string, 1<<16)
+	verifShrink.release = make(chan struct{}, 1)
+	os.Remove(path)
+	ln, err := net.Listen("unix", path)
+	if err != nil {
+		fmt.Fprintf(os.Stderr, "verif: cannot listen on %s: %v\n", path, err)
+		os.Exit(3)
+	}
+	verifShrink.on.Store(true)
+	go func() {
+		for {
+			c, err := ln.Accept()
+			if err != nil {
+				return
+			}
+			go verifShrinkControl(c)
+		}
+	}()
+}
+
+func verifShrinkHex(s string) string {
+	if s == "" {
+		return "-"
+	}
+	return hex.EncodeToString([]byte(s))
+}
+
+// verifShrinkGate is a schedule point of the rewrite goroutine. It must be
+// called without the server lock.
+func (s *Server) verifShrinkGate(kind, a, b string) {
+	if !verifShrink.on.Load() || !verifShrink.armed.Load() {
+		return
+	}
+	verifShrink.mu.Lock()
+	want := verifShrink.kinds == nil || verifShrink.kinds[kind]
+	verifShrink.mu.Unlock()
+	ev := kind + " " + verifShrinkHex(a) + " " + verifShrinkHex(b)
+	if kind == "done" {
+		verifShrink.arrived <- ev
+		return
+	}
+	if !want {
+		return
+	}
+	verifShrink.parked.Store(true)
+	verifShrink.arrived <- ev
+	<-verifShrink.release
+}
+
+// verifShrinkCrash is a crash point of the final swap.
+func (s *Server) verifShrinkCrash(name string) {
+	verifShrink.mu.Lock()
+	c := verifShrink.crash
+	verifShrink.mu.Unlock()
+	if c != "" && c == name {
+		fmt.Fprintf(os.Stderr, "verif: crash point %s\n", name)
+		os.Exit(137)
+	}
+}
+
+func verifShrinkControl(c net.Conn) {
+	defer c.Close()
+	rd := bufio.NewReader(c)
+	wait := func(ms int) string {
+		select {
+		case ev := <-verifShrink.arrived:
+			return ev
+		case <-time.After(time.Duration(ms) * time.Millisecond):
+			return "timeout"
+		}
+	}
+	releaseIfParked := func() bool {
+		if verifShrink.parked.CompareAndSwap(true, false) {
+			verifShrink.release <- struct{}{}
+			return true
+		}
+		return false
+	}
+	for {
+		line, err := rd.ReadString('\n')
+		if err != nil {
+			return
+		}
+		f := strings.Fields(line)
+		reply := "err bad request"
+		switch {
+		case len(f) >= 1 && f[0] == "arm":
+			verifShrink.mu.Lock()
+			verifShrink.kinds = nil
+			if len(f) == 2 {
+				verifShrink.kinds = map[string]bool{}
+				for _, k := range strings.Split(f[1], ",") {
+					verifShrink.kinds[k] = true
+				}
+			}
+			verifShrink.mu.Unlock()
+			verifShrink.armed.Store(true)
+			reply = "ok"
+		case len(f) == 1 && f[0] == "disarm":
+			verifShrink.armed.Store(false)
+			releaseIfParked()
+			// forget stale events
+			for drained := false; !drained; {
+				select {
+				case <-verifShrink.arrived:
+				default:
+					drained = true
+				}
+			}
+			reply = "ok"
+		case len(f) == 2 && f[0] == "wait":
+			ms, _ := strconv.Atoi(f[1])
+			reply = wait(ms)
+		case len(f) == 2 && f[0] == "step":
+			if !releaseIfParked() {
+				reply = "err not parked"
+			} else {
+				ms, _ := strconv.Atoi(f[1])
+				reply = wait(ms)
+			}
+		case len(f) == 1 && f[0] == "go":
+			if !releaseIfParked() {
+				reply = "err not parked"
+			} else {
+				reply = "ok"
+			}
+		case len(f) == 2 && f[0] == "crash":
+			verifShrink.mu.Lock()
+			verifShrink.crash = f[1]
+			if f[1] == "-" {
+				verifShrink.crash = ""
+			}
+			verifShrink.mu.Unlock()
+			reply = "ok"
+		}
+		if _, err := c.Write([]byte(reply + "\n")); err != nil {
+			return
+		}
+	}
+}
